@@ -92,6 +92,11 @@ def run(prog, rep, tier):
         draws = [c for c in facts if c.kind == "call" and c.callkind == "ext" and (c.target.startswith("numpy.random.") or c.target.startswith("random."))]
         gens = [c for c in facts if c.kind == "call" and c.callkind == "method" and c.target.lstrip(".") in api.GENERATOR_DRAWS]
         w = fwhere(f)
+        opaque = [c for c in facts if c.kind == "call" and (c.callkind == "opaque" or c.target in ("getattr", "operator.attrgetter", "operator.methodcaller"))]
+        if not gens and not draws and opaque:
+            # the sampler is looked up dynamically (getattr / attrgetter / a callable held in a table): which stream it draws from is not read
+            rep.unk("R6.global-stream", w, "%s calls a sampler that is looked up at run time (%s): not read" % (name, opaque[0].target))
+            continue
         if gens or len(draws) != 1:
             rep.bad("R6.global-stream", w, "%s must draw exactly once from numpy's global stream (found %d global draws, %d generator draws)" % (name, len(draws), len(gens)))
             continue
@@ -115,12 +120,24 @@ def run(prog, rep, tier):
         rep.check("SLOTS." + name, ok, fwhere(f, c.node), "%s" % ", ".join("%s <- %s" % (k, v if isinstance(v, str) else fmt(v)) for k, v in slots.items()),
                   "%s passes the wrong quantity: %s" % (name, "; ".join(why)))
         rep.check("RESULT." + name, res == c.result, fwhere(f, c.node), "the closure returns the draw unchanged", "the closure returns %s" % fmt(res)[:80])
-        dv = {p: (f.defaults[p].value if p in f.defaults and isinstance(f.defaults[p], ast.Constant) else None) for p in defaults}
+        def default_value(dn):
+            # a literal, or the name of a module-level constant bound to one
+            if isinstance(dn, ast.Constant):
+                return dn.value
+            if isinstance(dn, ast.Name):
+                k_ = prog.lookup("%s.%s" % (f.module.name, dn.id))
+                if k_[0] == "global" and isinstance(k_[2], ast.Constant):
+                    return k_[2].value
+            return None
+        dv = {p: (default_value(f.defaults[p]) if p in f.defaults else None) for p in defaults}
         rep.check("DEFAULTS." + name, dv == defaults and f.params[:len(defaults)] == list(defaults) and all(p_ in f.defaults for p_ in f.params[len(defaults):]), fwhere(f), "signature %s%s" % (name, tuple(defaults.items())),
                   "signature/defaults are %s" % dv)
     S, f, clo, res, facts = factory_closure(prog, NO + "zero")
     accepts_all_sizes(rep, f, facts, "zero")
-    rep.check("CONST.zero", zeros_of(res, shapes=[N]) and all(p_ in f.defaults for p_ in f.params), fwhere(f), "zero() returns zeros(n)", "zero() returns %s" % fmt(res))
+    if not zeros_of(res, shapes=[N]) and any(isinstance(x, tuple) and len(x) == 4 and x[0] == "ext" and x[1] in ("operator.attrgetter", "getattr") for x in walk(res)):
+        rep.unk("CONST.zero", fwhere(f), "zero() calls a function that is looked up at run time: %s is not read" % fmt(res)[:60])
+    else:
+        rep.check("CONST.zero", zeros_of(res, shapes=[N]) and all(p_ in f.defaults for p_ in f.params), fwhere(f), "zero() returns zeros(n)", "zero() returns %s" % fmt(res))
     fn = need(prog, "sempler.functions.null")
     Sn = Sym(prog)
     sn, _ = run_function(Sn, fn)
